@@ -433,18 +433,48 @@ static void run_cc1(int argc, char **argv, char *input, char *output) {
   run_subprocess(args);
 }
 
+// Returns true if two tokens printed back to back would be read as
+// something else, e.g. `-` followed by a macro-expanded `-1` as `--1`.
+static bool need_space(Token *prev, Token *tok) {
+  char a = prev->loc[prev->len - 1];
+  char b = tok->loc[0];
+  bool word1 = isalnum(a) || a == '_' || a == '$' || a == '.' || (a & 0x80);
+  bool word2 = isalnum(b) || b == '_' || b == '$' || b == '.' || (b & 0x80);
+
+  // Identifiers, keywords and numbers run together, an identifier in
+  // front of a quote becomes an encoding prefix, and a sign after a
+  // number such as `1e` becomes part of the number.
+  if (word1 && (word2 || b == '"' || b == '\''))
+    return true;
+  if (prev->kind == TK_PP_NUM && (b == '+' || b == '-'))
+    return true;
+
+  // Two punctuators that form a longer punctuator or start a comment.
+  static char *pair[] = {
+    "++", "--", "->", "<<", ">>", "<=", ">=", "==", "!=", "&&", "||",
+    "+=", "-=", "*=", "/=", "%=", "&=", "|=", "^=", "##", "//", "/*",
+    "..", "<:", ":>", "<%", "%>", "%:",
+  };
+  for (int i = 0; i < sizeof(pair) / sizeof(*pair); i++)
+    if (pair[i][0] == a && pair[i][1] == b)
+      return true;
+  return false;
+}
+
 // Print tokens to stdout. Used for -E.
 static void print_tokens(Token *tok) {
   FILE *out = open_file(opt_o ? opt_o : "-");
 
   int line = 1;
+  Token *prev = NULL;
   for (; tok->kind != TK_EOF; tok = tok->next) {
     if (line > 1 && tok->at_bol)
       fprintf(out, "\n");
-    if (tok->has_space && !tok->at_bol)
+    if (!tok->at_bol && (tok->has_space || (prev && need_space(prev, tok))))
       fprintf(out, " ");
     fprintf(out, "%.*s", tok->len, tok->loc);
     line++;
+    prev = tok;
   }
   fprintf(out, "\n");
 }
